@@ -16,6 +16,21 @@ What is extracted (data only):
                vs. dispatches non-temporal kinds to `_registerCompiledRequirement`).
 * `monTermPropagates`  shape of the sub-scenario loop of `_runMonitors` (`is not None` vs.
                `isinstance(…, _EndSimulationAction)`).
+  Both are `false` in the code the model is written against; the side condition `gen_subscenario_flags`
+  re-decides that on every run.
+* `initOrder`    the calls of the `try:` body of `Simulation.__init__` (setup, start of the top-level scenario, first
+               update, `_run`, stopping the remaining scenarios, final records), in source order.
+* `recordOrder`  `Simulation.recordCurrentState`: initial records (guarded by `step == 0`), time series, trajectory.
+* `monitorsOrder`  `_runMonitors`: own monitors, sub-scenarios, stop of the scenario itself.
+* `invokeOrder`  `DynamicScenario._invokeInner`: start of the sub-scenarios, loop (step every sub-scenario, keep those
+               that go on, return when none is left, yield, drop those stopped meanwhile).
+* `stopOrder`    `DynamicScenario._stop`: monitors, sub-scenarios, compose iterator.
+* `termSimRecurses` / `termSimRunningOnly` / `recordAllSubs`   shapes of `_checkSimulationTerminationConditions` and
+               `_evaluateRecordedExprsAt` (recursion into `_subScenarios`, with / without a test of `_isRunning`).
+* `behaviorEndIsEmpty`   `Behavior._step` turns `StopIteration` into the empty action tuple.
+
+Orders are taken from the positions (line, column) of the recognised calls / statements inside the function; a
+missing or duplicated one is a TemplateMismatch, unrelated statements in between are ignored.
 """
 import ast
 import re
@@ -310,6 +325,181 @@ def extract_for():
     return _opname(cmp.ops[0])
 
 
+BEH = "src/scenic/core/dynamics/behaviors.py"
+
+
+def _pos(n):
+    return (n.lineno, n.col_offset)
+
+
+def _ordered(found, what):
+    """found: list of (label, node); every label exactly once -> labels in source order"""
+    labels = [l for l, _ in found]
+    for l in set(labels):
+        expect(labels.count(l) == 1, f"{what}: `{l}` occurs {labels.count(l)} times")
+    return [l for l, _ in sorted(found, key=lambda x: _pos(x[1]))]
+
+
+def _calls(fn):
+    return [n for n in ast.walk(fn) if isinstance(n, ast.Call)]
+
+
+def extract_init():
+    src, tree = load(SIM)
+    fn = get_def(tree, "Simulation.__init__", SIM)
+    tries = [n for n in body_nodoc(fn) if isinstance(n, ast.Try)]
+    expect(len(tries) == 1 and tries[0].finalbody, "Simulation.__init__: one try/finally")
+    body = ast.Module(body=tries[0].body, type_ignores=[])
+    want = {"veneer.beginSimulation": "begin", "self.setup": "setup", "dynamicScenario._start": "start",
+            "self.updateObjects": "update", "self._run": "run", "scenario._stop": "stopRemaining",
+            "dynamicScenario._evaluateRecordedExprs": "recordFinal", "SimulationResult": "result"}
+    found = [(want[_call_name(c)], c) for c in _calls(body) if _call_name(c) in want]
+    order = _ordered(found, "Simulation.__init__")
+    expect(sorted(order) == sorted(want.values()), f"Simulation.__init__: calls found {order}")
+    # the remaining scenarios are stopped most recently started first
+    loops = [n for n in tries[0].body if isinstance(n, ast.For) and "runningScenarios" in ast.dump(n.iter)]
+    expect(len(loops) == 1 and "reversed" in ast.dump(loops[0].iter), "Simulation.__init__: reversed(runningScenarios)")
+    rf = [c for c in _calls(body) if _call_name(c) == "dynamicScenario._evaluateRecordedExprs"][0]
+    expect(_attr_chain(rf.args[0]) == "RequirementType.recordFinal", "Simulation.__init__: recordFinal")
+    return order
+
+
+def extract_record():
+    src, tree = load(SIM)
+    fn = get_def(tree, "Simulation.recordCurrentState", SIM)
+    found = []
+    for c in _calls(fn):
+        if _call_name(c) == "dynamicScenario._evaluateRecordedExprs":
+            kind = _attr_chain(c.args[0])
+            expect(kind in ("RequirementType.recordInitial", "RequirementType.record"), f"recordCurrentState: {kind}")
+            found.append(("initial" if kind.endswith("Initial") else "series", c))
+        elif _call_name(c) == "self.trajectory.append":
+            expect(_call_name(c.args[0]) == "self.currentState", "recordCurrentState: trajectory.append(currentState())")
+            found.append(("trajectory", c))
+    order = _ordered(found, "recordCurrentState")
+    expect(sorted(order) == ["initial", "series", "trajectory"], f"recordCurrentState: found {order}")
+    # the initial records are guarded by `step == 0`, nothing else is guarded
+    guards = [n for n in body_nodoc(fn) if isinstance(n, ast.If)]
+    expect(len(guards) == 1 and isinstance(guards[0].test, ast.Compare) and isinstance(guards[0].test.ops[0], ast.Eq)
+           and isinstance(guards[0].test.comparators[0], ast.Constant) and guards[0].test.comparators[0].value == 0
+           and "recordInitial" in ast.dump(guards[0]) and "trajectory" not in ast.dump(guards[0])
+           and not guards[0].orelse, "recordCurrentState: `if step == 0:` around the initial records only")
+    return order
+
+
+def extract_tree_walks():
+    src, tree = load(SCN)
+    # _runMonitors: own monitors, sub-scenarios, stop self
+    fn = get_def(tree, "DynamicScenario._runMonitors", SCN)
+    found = []
+    for n in body_nodoc(fn):
+        if isinstance(n, ast.For) and _attr_chain(n.iter) == "self._monitors":
+            expect(any(_call_name(c) == "monitor._step" for c in _calls(n)), "_runMonitors: monitor._step()")
+            found.append(("own", n))
+        elif isinstance(n, ast.For) and _attr_chain(n.iter) == "self._subScenarios":
+            expect(any(_call_name(c) == "sub._runMonitors" for c in _calls(n)), "_runMonitors: sub._runMonitors()")
+            found.append(("subs", n))
+        elif isinstance(n, ast.If) and is_name(n.test, "endScenario"):
+            expect(_call_name(n.body[0].value) == "self._stop", "_runMonitors: self._stop(endScenario)")
+            found.append(("stopSelf", n))
+    mon_order = _ordered(found, "_runMonitors")
+    expect(sorted(mon_order) == ["own", "stopSelf", "subs"], f"_runMonitors: found {mon_order}")
+    # _invokeInner
+    fn = get_def(tree, "DynamicScenario._invokeInner", SCN)
+    body = body_nodoc(fn)
+    found = []
+    for n in body:
+        if isinstance(n, ast.For) and is_name(n.iter, "subs"):
+            names = [_call_name(c) for c in _calls(n)]
+            expect("sub._prepare" in names and "sub._start" in names
+                   and names.index("sub._prepare") < names.index("sub._start"), "_invokeInner: sub._prepare(); sub._start()")
+            found.append(("start", n))
+        elif isinstance(n, ast.Assign) and _attr_chain(n.targets[0]) == "self._subScenarios":
+            expect(_call_name(n.value) == "list" and is_name(n.value.args[0], "subs"), "_invokeInner: _subScenarios = list(subs)")
+            found.append(("assign", n))
+        elif isinstance(n, ast.While):
+            expect(isinstance(n.test, ast.Constant) and n.test.value is True, "_invokeInner: while True")
+            found.append(("loop", n))
+    top = _ordered(found, "_invokeInner")
+    expect(top == ["start", "assign", "loop"], f"_invokeInner: found {top}")
+    loop = [n for n in body if isinstance(n, ast.While)][0]
+    found = []
+    for n in loop.body:
+        d = ast.dump(n)
+        if isinstance(n, ast.Assign) and is_name(n.targets[0], "newSubs"):
+            found.append(("fresh", n))
+        elif isinstance(n, ast.For) and _attr_chain(n.iter) == "self._subScenarios":
+            expect(any(_call_name(c) == "sub._step" for c in _calls(n)) and "_EndSimulationAction" in d
+                   and any(isinstance(y, ast.Yield) for y in ast.walk(n))
+                   and any(_call_name(c) == "newSubs.append" for c in _calls(n)), "_invokeInner: step loop")
+            # a sub-scenario is kept exactly when its step returned None
+            keep = [t for t in ast.walk(n) if isinstance(t, ast.If) and any(_call_name(c) == "newSubs.append" for c in _calls(ast.Module(body=t.body, type_ignores=[])))]
+            expect(keep and isinstance(keep[-1].test, ast.Compare) and isinstance(keep[-1].test.ops[0], ast.Is)
+                   and isinstance(keep[-1].test.comparators[0], ast.Constant) and keep[-1].test.comparators[0].value is None,
+                   "_invokeInner: newSubs.append(sub) when terminationReason is None")
+            found.append(("stepAll", n))
+        elif isinstance(n, ast.Assign) and _attr_chain(n.targets[0]) == "self._subScenarios" and is_name(n.value, "newSubs"):
+            found.append(("keep", n))
+        elif isinstance(n, ast.If) and isinstance(n.test, ast.UnaryOp) and isinstance(n.test.op, ast.Not) \
+                and is_name(n.test.operand, "newSubs"):
+            expect(isinstance(n.body[0], ast.Return), "_invokeInner: if not newSubs: return")
+            found.append(("returnIfNone", n))
+        elif isinstance(n, ast.Expr) and isinstance(n.value, ast.Yield):
+            expect(isinstance(n.value.value, ast.Constant) and n.value.value.value is None, "_invokeInner: yield None")
+            found.append(("yield", n))
+        elif isinstance(n, ast.Assign) and _attr_chain(n.targets[0]) == "self._subScenarios" and "_isRunning" in d:
+            found.append(("dropStopped", n))
+        else:
+            raise TemplateMismatch("_invokeInner: unrecognised statement: " + ast.unparse(n)[:100])
+    inv_order = top[:2] + _ordered(found, "_invokeInner loop")
+    # _stop
+    fn = get_def(tree, "DynamicScenario._stop", SCN)
+    found = []
+    for n in body_nodoc(fn):
+        if isinstance(n, ast.For) and _attr_chain(n.iter) == "self._monitors":
+            found.append(("monitors", n))
+        elif isinstance(n, ast.Assign) and _attr_chain(n.targets[0]) == "self._monitors":
+            found.append(("clearMonitors", n))
+        elif isinstance(n, ast.For) and _attr_chain(n.iter) == "self._subScenarios":
+            expect("_isRunning" in ast.dump(n) and any(_call_name(c) == "sub._stop" for c in _calls(n)),
+                   "_stop: stop the running sub-scenarios")
+            found.append(("subs", n))
+        elif isinstance(n, ast.Assign) and _attr_chain(n.targets[0]) == "self._runningIterator":
+            found.append(("iterator", n))
+        elif isinstance(n, ast.Expr) and _call_name(n.value) == "veneer.endScenario":
+            found.append(("endScenario", n))
+    stop_order = _ordered(found, "_stop")
+    expect(sorted(stop_order) == sorted(["monitors", "clearMonitors", "subs", "iterator", "endScenario"]),
+           f"_stop: found {stop_order}")
+    # _checkSimulationTerminationConditions
+    fn = get_def(tree, "DynamicScenario._checkSimulationTerminationConditions", SCN)
+    loops = [n for n in body_nodoc(fn) if isinstance(n, ast.For)]
+    expect(loops and _attr_chain(loops[0].iter) == "self._terminateSimulationConditions",
+           "_checkSimulationTerminationConditions: own conditions first")
+    subl = [n for n in loops[1:] if _attr_chain(n.iter) == "self._subScenarios"]
+    expect(len(loops) == 1 + len(subl) and len(subl) <= 1, "_checkSimulationTerminationConditions: loops")
+    ts_rec = bool(subl) and any(_call_name(c) == "sub._checkSimulationTerminationConditions" for c in _calls(subl[0]))
+    ts_run = bool(subl) and isinstance(subl[0].body[0], ast.If) and _attr_chain(subl[0].body[0].test) == "sub._isRunning" \
+        and len(subl[0].body) == 1
+    # _evaluateRecordedExprsAt
+    fn = get_def(tree, "DynamicScenario._evaluateRecordedExprsAt", SCN)
+    loops = [n for n in body_nodoc(fn) if isinstance(n, ast.For)]
+    expect(len(loops) == 2 and "getattr" in ast.dump(loops[0].iter) and _attr_chain(loops[1].iter) == "self._subScenarios"
+           and any(_call_name(c) == "sub._evaluateRecordedExprsAt" for c in _calls(loops[1])),
+           "_evaluateRecordedExprsAt: own expressions, then the sub-scenarios")
+    rec_all = "_isRunning" not in ast.dump(loops[1])
+    # Behavior._step: StopIteration -> ()
+    src, tree = load(BEH)
+    fn = get_def(tree, "Behavior._step", BEH)
+    hs = [h for n in ast.walk(fn) if isinstance(n, ast.Try) for h in n.handlers]
+    expect(len(hs) == 1 and is_name(hs[0].type, "StopIteration"), "Behavior._step: except StopIteration")
+    a = hs[0].body[0]
+    beh_empty = isinstance(a, ast.Assign) and is_name(a.targets[0], "actions") and isinstance(a.value, ast.Tuple) \
+        and not a.value.elts
+    return {"monitorsOrder": mon_order, "invokeOrder": inv_order, "stopOrder": stop_order, "termSimRecurses": ts_rec,
+            "termSimRunningOnly": ts_run, "recordAllSubs": rec_all, "behaviorEndIsEmpty": beh_empty}
+
+
 DOC_KEYS = [
     ("scenarios", r"Execute all currently-running :term:`modular scenarios`"),
     ("record", r"Save the values of all :keyword:`record` statements"),
@@ -370,8 +560,15 @@ def extract():
                and isinstance(n.value.ops[0], ast.NotEq) and isinstance(n.value.comparators[0], ast.Constant)
                and n.value.comparators[0].value == "steps" for n in ast.walk(fn))
     doc, doc_sub = extract_doc()
-    return {"runOrder": run_order, "stepOrder": step_order, "docOrder": doc, "docStepOrder": doc_sub, "ops": ops,
-            "secondsDivide": bool(div and secs), "dynReqAsTemporal": dyn, "monTermPropagates": prop}
+    d = {"runOrder": run_order, "stepOrder": step_order, "docOrder": doc, "docStepOrder": doc_sub, "ops": ops,
+         "secondsDivide": bool(div and secs), "dynReqAsTemporal": dyn, "monTermPropagates": prop,
+         "initOrder": extract_init(), "recordOrder": extract_record()}
+    d.update(extract_tree_walks())
+    return d
+
+
+def _b(x):
+    return str(bool(x)).lower()
 
 
 def _strs(xs):
@@ -411,6 +608,34 @@ def dynReqAsTemporal : Bool := {str(d["dynReqAsTemporal"]).lower()}
 /-- `_runMonitors` hands a sub-scenario monitor's `terminate` up as a termination reason -/
 def monTermPropagates : Bool := {str(d["monTermPropagates"]).lower()}
 
-def sem : Sem := ⟨runOrder, dynReqAsTemporal, monTermPropagates⟩
+/-- calls of the `try:` body of `Simulation.__init__`, in source order -/
+def initOrder : List String :=
+  {_strs(d["initOrder"])}
+
+/-- `Simulation.recordCurrentState`, in source order (the initial records are guarded by `step == 0`) -/
+def recordOrder : List String :=
+  {_strs(d["recordOrder"])}
+
+/-- `DynamicScenario._runMonitors`, in source order -/
+def monitorsOrder : List String :=
+  {_strs(d["monitorsOrder"])}
+
+/-- `DynamicScenario._invokeInner`, in source order -/
+def invokeOrder : List String :=
+  {_strs(d["invokeOrder"])}
+
+/-- `DynamicScenario._stop`, in source order -/
+def stopOrder : List String :=
+  {_strs(d["stopOrder"])}
+
+/-- `_checkSimulationTerminationConditions` also asks the sub-scenarios / only the running ones -/
+def termSimRecurses : Bool := {_b(d["termSimRecurses"])}
+def termSimRunningOnly : Bool := {_b(d["termSimRunningOnly"])}
+/-- `_evaluateRecordedExprsAt` asks every scenario of `_subScenarios`, running or not -/
+def recordAllSubs : Bool := {_b(d["recordAllSubs"])}
+/-- `Behavior._step`: a behavior that has ended yields the empty action tuple -/
+def behaviorEndIsEmpty : Bool := {_b(d["behaviorEndIsEmpty"])}
+
+def sem : Sem := ⟨runOrder⟩
 end Scenic.Gen
 """
